@@ -30,7 +30,7 @@ def case(name, cls, mode, ops, directives=()):
 
 # ---- start states: (label, ops building register v0) -------------------------------------
 def start_states(cls):
-    full = 8 if cls == "b1" else (4 if cls != "big" else 2)
+    full = 8 if cls in ("b1", "p1") else (4 if cls != "big" else 2)
     st = [
         ("sentinel", ["new v0"]),
         ("zero", ["with_capacity v0 4", "shrink_to_fit v0"]),
@@ -51,7 +51,7 @@ BOUNDS_E = ["U", "I0", "I2", "I3", "E0", "E1", "E3", "E4", "E8", "I%d" % MAXU, "
 def mutating_ops(r="v0", args=SMALL):
     """single operations on register r that need no second register"""
     ops = ["push %s 50" % r, "pop %s" % r, "clear %s" % r, "dedup %s" % r, "shrink_to_fit %s" % r,
-           "spare %s" % r, "split_spare %s" % r, "views %s" % r,
+           "spare %s" % r, "split_spare %s" % r, "views %s" % r, "fill_spare %s 2 60" % r, "fill_split_spare %s 9 70" % r,
            "retain %s mod2=0" % r, "retain %s seqTFTFT" % r, "dedup_by %s mod2=0" % r, "dedup_by_key %s kmod2" % r,
            "remove_item %s 2" % r, "remove_item %s 99" % r,
            "extend %s it[60,61]" % r, "extend %s it[]" % r, "extend_from_slice %s 70 71 72" % r, "extend_from_slice %s" % r,
@@ -236,7 +236,11 @@ def random_case(rng, name, cls, mode, nops, directives=(), hostile=False):
             rn = fresh("v"); ops.append("clone %s %s" % (r, rn)); regs.append(rn)
         elif k < 36:
             o = rng.pick(["spare ", "split_spare "])
-            ops.append(("views " if len(ops) % 2 == 0 else o) + r)
+            if len(ops) % 5 == 3:
+                # (chosen from the position, not from the generator state: the random stream stays as it was)
+                ops.append("%s %s %d %d" % ("fill_spare" if len(ops) % 2 else "fill_split_spare", r, len(ops) % 4, 60 + len(ops) % 7))
+            else:
+                ops.append(("views " if len(ops) % 2 == 0 else o) + r)
         elif k < 37:
             it = fresh("i"); ops.append("drain %s %s %s %s" % (r, bound(True), bound(False), it)); its.append((it, "dr", r)); lent.add(r)
         elif k < 38:
